@@ -224,6 +224,14 @@ def run(R):
                     rets[arm] = s["rv"]["op"]["v"]
             if "new" not in rets and any(o.kind == "call" and o.call is ins[0] for o in F.origins(af, 0, depth=6, through_calls=False)):
                 rets["new"] = "true"      # `.. ; self.values.insert(value.clone())` as the tail: insert returns true for a new element
+            # `let is_new = !contains(v); .. ; is_new` - the answer is the negated membership test itself
+            if not rets:
+                ro = F.origins(af, 0, depth=6, through_calls=False)
+                if len(ro) == 1 and ro[0].kind == "unop" and ro[0].extra == "Not" and \
+                        any(o.kind == "call" and o.call is cont[0] for o in F.origins(af, ro[0].place, depth=4, through_calls=False)):
+                    rets = {"dup": "false", "new": "true"}
+                elif len(ro) == 1 and ro[0].kind == "call" and ro[0].call is cont[0]:
+                    rets = {"dup": "true", "new": "false"}
             if rets.get("dup") == "false" and rets.get("new") == "true":
                 R.ok("C08.set", "add", "contains -> false; otherwise insert(clone) -> true; set of Vec<Value>", af.loc())
             else:
